@@ -24,7 +24,8 @@ REQUIRED_THEOREMS = ['weekday_resolve', 'duration_seconds', 'year_range', 'month
                      'evaluate_sound_weekday', 'evaluate_complete_weekday', 'collapse_sound_dates', 'collapse_sound_times',
                      'dates_matching_day_spec', 'evaluate_monthday_stage_sound', 'evaluate_timerange_stage_sound',
                      'evaluate_sound', 'evaluate_dateOnly_eq', 'evaluate_complete_monthday',
-                     'stages234_sound', 'evaluate_sound_durations', 'evaluate_complete_hours']
+                     'stages234_sound', 'evaluate_sound_durations', 'evaluate_complete_hours',
+                     'monthday_stage_never_raises']
 RULE = ('resolve: weekday TIMEXes XXXX-WXX-0..9 (with and without a time) x every day 1950-01-01..2090-12-31 in '
         'thorough (quick: every day of 2019-2021, the first/last ten days of every year, seeded days), XXXX-MM / '
         'XXXX-MM-DD x one reference per year + seeded, YYYY / YYYY-MM (all 12) / YYYY-Www (00-54) / durations (all '
